@@ -28,7 +28,7 @@ func (c14) NumCases(tier string) int {
 }
 
 func (c14) Rule() string {
-	return "positive: well-typed statements from the typed grammar (documented typing table) must be accepted, and executing them in row and batch mode on conforming stores must not fail (the generator excludes by construction the data-dependent failures the engine legitimately reports: zero divisors, bad patterns, reversed bounds, unequal vector lengths, dynamically typed JSON members); negative: every single-fault mutant - an operator applied to unsupported operand types, a non-Boolean WHERE or ! operand, key/value where the statement form forbids them, an unknown function, an argument count off by one - with the fault placed at top level, under !, inside a call argument, an IN item, a BETWEEN bound, a select field, an aggregate argument, or a PUT/REMOVE/DELETE expression must make BuildPlan return an error with an empty storage log whatever the store holds. Non-trivial: every generated statement; distinct by statement text."
+	return "positive: well-typed statements from the typed grammar (documented typing table) must be accepted, and executing them in row and batch mode on conforming stores must not fail (the generator excludes by construction the data-dependent failures the engine legitimately reports: zero divisors, bad patterns, reversed bounds, unequal vector lengths, dynamically typed JSON members); negative: every single-fault mutant - an operator applied to unsupported operand types, a non-Boolean WHERE or ! operand, key/value where the statement form forbids them, an unknown function, an argument count off by one, a constant aggregate parameter of the wrong type - with the fault placed at top level, under !, inside a call argument, an IN item, a BETWEEN bound, a select field, an aggregate argument, or a PUT/REMOVE/DELETE expression must make BuildPlan return an error with an empty storage log whatever the store holds. Non-trivial: every generated statement; distinct by statement text."
 }
 
 func (c14) Assumptions() []string {
@@ -270,7 +270,14 @@ func (k c14) negative(c *rt.Ctx, st *gen.Store) {
 		where := []string{"true", "key ^= 'k'", "key = 'k001'", "int(value) > 2", "key >= 'a' & key < 'z'"}[r.Intn(5)]
 		q, fault, pos = sel(strings.Join(fields, ", "), where), f, "select-field"
 	case 8: // aggregate argument / aggregate arity
-		switch r.Intn(3) {
+		switch r.Intn(4) {
+		case 3: // constant parameter of an aggregate of the wrong type
+			w := []string{"key ^= 'k'", "true", "key > 'a' & key <= 'z'", "int(value) > 1", "key between 'a' and 'z' limit 3"}[r.Intn(5)]
+			if r.Bool() {
+				q, fault = sel([]string{"quantile(int(value), 'x')", "group_concat(value, 1)", "count(1), group_concat(key, 2.5)", "quantile(strlen(key), true)"}[r.Intn(4)], w), "operand-type"
+			} else {
+				q, fault = sel("value as g, "+[]string{"quantile(int(value), 'x')", "group_concat(key, 1)"}[r.Intn(2)], "key ^= 'k' group by g"), "operand-type"
+			}
 		case 0:
 			n, f := c14Faulty(r, gen.TN)
 			q, fault = sel("count(1), sum("+gen.Print(n)+")", "key ^= 'k'"), f
